@@ -17,14 +17,19 @@ Witnesses of its negation (each replayed on the implementation and recorded as a
   `midless_offer_leaks_extmap_across_sections` — extension-id clause: the remote section is looked up
                                              by `mid == ""`, i.e. the FIRST mid-less section
   `image_answer_format_not_offered`        — `m=image … udptl t38` answered with format `98`
-What is proved of `answer` for ALL inputs is stated clause by clause below (`answer_count`,
-`answer_direction_ok`, `answer_setup_ok`, `answer_setup_complements`, `answer_mux_ok`,
-`answer_bundle_ok`, `answer_extmap_ok`).  A combined `answer_valid_partial` (all clauses under one
-hypothesis) is NOT proved; the codecs / RTX clauses are only checked on the implementation by the
-oracle (they do not hold in general, see the witnesses).
+  `sticky_role_answers_offerers_own_role`  — setup clause on a re-offer that changes the DTLS role
+What is proved of `answer` is stated clause by clause: for ALL inputs `answer_count`,
+`answer_setup_ok(_desc)`, `answer_setup_complements`, `answer_direction_ok`, `answer_mux_ok(_desc)`,
+`answer_bundle_ok`, `answer_extmap_ok`; under named, decidable, satisfiable hypotheses
+`answer_direction_ok_desc` (`DirSynced`), `answer_aligned_partial` (all mids present, `KindSynced`,
+mids not cleared) and their conjunction `answer_valid_core_partial`.  A combined
+`answer_valid_partial` over ALL clauses is NOT proved: the codecs / RTX / extension-id-uniqueness
+clauses have no positive theorem (they are false in general, see the witnesses) and are checked on the
+implementation by the oracle only.
 
-SDP text: `parse_print` (line level, under the decidable well-formedness `WF`), `norm_idem`,
-`parse_print_exact`, and the character-level `attr_text_roundtrip`.
+SDP text: `parse_print` (line level, decidable `WF`), `parse_print_structural` (structural `WF'`),
+`norm_idem`, `parse_print_exact`, `parse_text_print` (text level), and the character-level
+`attr_text_roundtrip`, `decimal_roundtrip`, `origin_roundtrip`, `timing_roundtrip`, `mline_roundtrip`.
 -/
 import RtcModel.Lemmas.Answer
 import RtcModel.Lemmas.SdpLines
@@ -450,10 +455,6 @@ def DirSynced (ts : List TrxView) (offer : Desc) : Prop :=
 def KindSynced (ts : List TrxView) (offer : Desc) : Prop :=
   ∀ t ∈ ts, ∀ o ∈ offer.media, Matches o t → t.kind = o.kind
 
-theorem mem_of_getElem? {α : Type} {l : List α} {i : Nat} {x : α} (h : l[i]? = some x) : x ∈ l := by
-  obtain ⟨hi, rfl⟩ := List.getElem?_eq_some_iff.mp h
-  exact List.getElem_mem hi
-
 /-- **answer_direction_ok_desc** — along the whole answer: every answered direction is compatible with
 the offered one, when the matched transceivers carry the offered directions (`DirSynced`). -/
 theorem answer_direction_ok_desc (c : Cfg) (ts : List TrxView) (nextMid : Nat) (hasLocal : Bool) (role : Option Bool)
@@ -470,7 +471,7 @@ theorem answer_direction_ok_desc (c : Cfg) (ts : List TrxView) (nextMid : Nat) (
     refine hal.imp ?_
     intro o p ho' _ ⟨_, t', hget', hm⟩ t mid hget _
     rw [hget'] at hget; injection hget with e; subst e
-    have hdir := hd t' (mem_of_getElem? hget') o ho' hm
+    have hdir := hd t' (mem_of_getElem_some hget') o ho' hm
     unfold secDirOk
     simp only [answerSection]
     rw [← hdir]
@@ -499,7 +500,7 @@ theorem answer_aligned_partial (c : Cfg) (ts : List TrxView) (nextMid : Nat) (ha
   refine hal.imp ?_
   intro o p ho' _ ⟨_, t', hget', hm⟩ t mid hget hmid
   rw [hget'] at hget; injection hget with e; subst e
-  have hkind := hk t' (mem_of_getElem? hget') o ho' hm
+  have hkind := hk t' (mem_of_getElem_some hget') o ho' hm
   have hmid' : mid = o.mid := by
     rcases hm with ⟨_, htm⟩ | ⟨hem, _⟩
     · exact hmid _ htm
